@@ -14,7 +14,7 @@ use std::sync::Mutex;
 pub const PROP: &str = "C13";
 
 /// (text, imports of the observed file)
-const OBSERVED: [(&str, &[&str]); 6] = [
+const OBSERVED: [(&str, &[&str]); 7] = [
     (
         "package o; import p.B; import q.C; import r.D; import zz.Other; interface Obs { void f(in B b, Thing t); C g(); Other h(); }",
         &["p.B", "q.C", "r.D", "zz.Other"],
@@ -29,12 +29,17 @@ const OBSERVED: [(&str, &[&str]); 6] = [
         "package o; parcelable Obs { x.B b; u.U u; p.B[] c; List<q.C> d; w.W e; Thing t; }",
         &[],
     ),
+    // two imports with one simple name, used bare and qualified
+    (
+        "package o; import p.B; import x.B; parcelable Obs { B b; x.B c; List<B> d; }",
+        &["p.B", "x.B"],
+    ),
     // an enum file with imports (nothing can use them) and an unused forward declaration
     ("package o; import p.B; import q.C; parcelable Thing; enum Obs { A, B = 2 }", &["p.B", "q.C"]),
 ];
 
 /// pool of other files: (id, text, key registered, kind)
-const POOL: [(&str, &str, &str, &str); 26] = [
+const POOL: [(&str, &str, &str, &str); 28] = [
     ("b-itf-1", "package p; interface B { }", "p.B", "interface"),
     ("b-itf-2", "package p; import o.Obs; interface B { void x(in Obs o); const int K = 1; }", "p.B", "interface"),
     ("b-par-1", "package p; parcelable B { }", "p.B", "parcelable"),
@@ -62,6 +67,9 @@ const POOL: [(&str, &str, &str, &str); 26] = [
     ("b-upper-package", "package P; interface B { }", "P.B", "interface"),
     ("b-par-deprecated", "package p; /** Old.\n * @deprecated use q.C\n * @hide\n */ parcelable B { /** @deprecated */ int x; }", "p.B", "parcelable"),
     ("c-deprecated", "package q; /** @deprecated */ interface C { /** @deprecated */ void f(); }", "q.C", "interface"),
+    // unrelated files that use the observed file's simple names through other imports / none
+    ("uses-x-b-only", "package w3; import x.B; parcelable W3 { B b; List<B> l; }", "w3.W3", "parcelable"),
+    ("uses-bare-b", "package w4; oneway interface W4 { void f(in B b, out C c) = 1; int g(); }", "w4.W4", "interface"),
     ("declares-thing", "package v; parcelable Thing; parcelable Other; parcelable B; interface V { void f(in Thing t, in Other o, in B b); }", "v.V", "interface"),
 ];
 
